@@ -10,7 +10,7 @@ Model
 * The rule that governs a row inside a block is the FIRST rule, in text order, whose words match the row: the rules written
   below the rule that governs the block row (local rules) are tried first, then the `%global` rules inherited from the
   enclosing levels (nearest first).  The key of the row are the words standing at the `*` positions and the rest of the
-  line standing at a trailing `~`.  Rule and key are decided with bounded.gen_rb.tokens_match (own word matcher).
+  line standing at a trailing `~`.  Rule and key are decided with an own word matcher (tokens_match below; `*/regex/` = one word matching the regex).
 * Per block the device holds at most one row per slot (rule, key).
 * direct command: a command whose row matches rule r with key k stores the row in slot (r, k) of the block addressed by
   the command's path; entering a block (every ancestor row of a command path) is itself a direct command, it creates the
@@ -33,7 +33,9 @@ Model
 """
 from collections import OrderedDict as odict
 
-from bounded.gen_rb import parse_rules, tokens_match
+import re
+
+from bounded.gen_rb import parse_rules
 
 NEG = {"huawei": "undo", "h3c": "undo", "cisco": "no", "arista": "no", "nexus": "no", "iosxr": "no", "aruba": "no",
        "b4com": "no", "juniper": "delete", "nokia": "delete", "ribbon": "delete", "routeros": "remove"}
@@ -99,11 +101,44 @@ def root_ctx(rulebook_text):
     return r
 
 
-def child_ctx(ctx, rule):
+def tokens_match(tokens, row):
+    """own word matcher: a rule matches a row that starts with the rule's words; `*` is any one word, `*/regex/` one word the
+    regex matches completely, a trailing `~` the non-empty rest of the line"""
+    words = row.split()
+    for i, t in enumerate(tokens):
+        if t == "~" and i == len(tokens) - 1:
+            return len(words) > i
+        if i >= len(words):
+            return False
+        if t == "*":
+            continue
+        if len(t) > 3 and t.startswith("*/") and t.endswith("/"):
+            if re.fullmatch(t[2:-1], words[i]) is None:
+                return False
+            continue
+        if t != words[i]:
+            return False
+    return True
+
+
+def _is_wild(t):
+    return t == "*" or (len(t) > 3 and t.startswith("*/") and t.endswith("/"))
+
+
+def child_ctx(ctx, rule, row=None):
+    """the rules visible below a block row.  A block row that several rules of its level match (a specific rule written
+    before a generic one) gets the children of all of them, those of the earlier rule first; the row is governed -- and its
+    own slot decided -- by the first one.  Children are taken from local rules only when the governing rule is local."""
     if rule is None:
         return Ctx([], ctx.glob)
-    ch = rule.children
-    return Ctx([x for x in ch if not is_global(x)], [x for x in ch if is_global(x)] + list(ctx.glob))
+    rules = [rule]
+    if row is not None and not is_global(rule):
+        rules = [r for r in ctx.local if tokens_match(r.tokens, row)]
+    loc, glo = [], []
+    for r in rules:
+        loc += [x for x in r.children if not is_global(x) and x not in loc]
+        glo += [x for x in r.children if is_global(x) and x not in glo]
+    return Ctx(loc, glo + list(ctx.glob))
 
 
 def key_of(tokens, words):
@@ -111,7 +146,7 @@ def key_of(tokens, words):
     for i, t in enumerate(tokens):
         if t == "~" and i == len(tokens) - 1:
             key.append(" ".join(words[i:]))
-        elif t == "*":
+        elif _is_wild(t):
             key.append(words[i])
     return tuple(key)
 
@@ -201,7 +236,7 @@ class Device:
         for b in blocks:
             rule = self.store(node, ctx, b, path)
             node = node[b]
-            ctx = child_ctx(ctx, rule)
+            ctx = child_ctx(ctx, rule, b)
             path = path + (b,)
         return node, ctx, path
 
@@ -219,7 +254,7 @@ class Device:
         ctx = self.ctx0
         for b in blocks:
             rule, _ = classify(ctx, b)
-            ctx = child_ctx(ctx, rule)
+            ctx = child_ctx(ctx, rule, b)
         return ctx
 
 
@@ -228,7 +263,7 @@ def ctx_at(rulebook_text, blocks):
     ctx = root_ctx(rulebook_text)
     for b in blocks:
         rule, _ = classify(ctx, b)
-        ctx = child_ctx(ctx, rule)
+        ctx = child_ctx(ctx, rule, b)
     return ctx
 
 
@@ -383,7 +418,7 @@ def known_part(tree, rulebook_text, ctx=None):
         rule, _ = classify(ctx, row)
         if rule is None:
             continue
-        out[row] = known_part(ch, rulebook_text, child_ctx(ctx, rule))
+        out[row] = known_part(ch, rulebook_text, child_ctx(ctx, rule, row))
     return out
 
 
@@ -402,7 +437,7 @@ def ordered_view(tree, rulebook_text, ctx=None, path=()):
             continue
         if flag(rule, "ordered"):
             seq.append((rule.line, row))
-        out.update(ordered_view(ch, rulebook_text, child_ctx(ctx, rule), path + (row,)))
+        out.update(ordered_view(ch, rulebook_text, child_ctx(ctx, rule, row), path + (row,)))
     if seq:
         out[path] = seq
     return out
@@ -419,7 +454,7 @@ def slots_ok(tree, rulebook_text, ctx=None):
         if (rule.line, key) in seen:
             return False
         seen.add((rule.line, key))
-        if not slots_ok(ch, rulebook_text, child_ctx(ctx, rule)):
+        if not slots_ok(ch, rulebook_text, child_ctx(ctx, rule, row)):
             return False
     return True
 
@@ -431,5 +466,5 @@ def governing(tree_path, rulebook_text):
     for row in tree_path:
         rule, key = classify(ctx, row)
         out.append((rule, key))
-        ctx = child_ctx(ctx, rule)
+        ctx = child_ctx(ctx, rule, row)
     return out
